@@ -118,6 +118,7 @@ type poolsMarker struct {
 type poolsMark struct {
 	Markers []poolsMarker `json:"markers"`
 	Globals []string      `json:"globals"`
+	Late    string        `json:"late"`
 	Tags    []string      `json:"tags"`
 	Menu    int           `json:"menu"`
 }
@@ -495,7 +496,7 @@ func (w *poolsWorld) abstractClause(cl, owner string) poolsClause {
 				if len(f) >= 1 {
 					return poolsClause{path, mk.M, f[0], echo}
 				}
-			case "required", "re":
+			case "required", "re", "dt":
 				return poolsClause{path, mk.M, "", echo}
 			}
 		}
@@ -995,7 +996,23 @@ func poolsReplay(args []string) error {
 			rechecks++
 		}
 	}
-	for _, h := range hists {
+	// The global function table is process state: after the first and after the second third of the histories the
+	// harness registers a global function (nothing is pending then) and logs an `epoch` event - Pools!GlobAt says what
+	// the table holds from there on: epoch 1 = the name g_3 exists, epoch 2 = g_1 is another function (reports g_1#2).
+	epochAt := map[int]int{}
+	if len(hists) >= 6 && w.menu.Mark.Late != "" {
+		epochAt[len(hists)/3] = 1
+		epochAt[2*len(hists)/3] = 2
+	}
+	for hi, h := range hists {
+		if ep, ok := epochAt[hi]; ok {
+			if ep == 1 {
+				valid.SetCustomerValidFn(w.menu.Mark.Late, poolsGlobFn(w.menu.Mark.Late))
+			} else {
+				valid.SetCustomerValidFn("g_1", poolsGlobFn("g_1#2"))
+			}
+			out.put(poolsEvent{E: "epoch", C: ep, Clauses: []poolsClause{}, InputSame: true, RmSame: true, Same: true})
+		}
 		for _, id := range h.Calls {
 			doCall(id, true)
 		}
